@@ -55,6 +55,7 @@ T=[
  ("fx-record-covered-by-union-of-records","C05","433b075","replays/C05/fixed/record-covered-by-union-of-records.json","{[k: string]: null | string} | ... was judged assignable to {[k: string]: null} | {[k: string]: string | {...}} (and {[k: string]: A | B} the same type as {[k: string]: A} | {[k: string]: B}) although {c: \"a\", a: null} is in the first and not in the second: the index signature was treated as a single key when several negated records had to be escaped"),
  ("fx-export-list-dual-meaning","C09","c4254aa","replays/C09/fixed/export-list-dual-meaning.json","export { CUnitQ } of a name that is both a constant and a type (const CUnitQ = \"ms\" as const; type CUnitQ = ...) exported the type only: import { CUnitQ } from \"./entry\" used as a value in another module reported Cannot resolve value 'entry.ts::CUnitQ' (the single-file program compiles)"),
  ("fx-describe-empty-union","C15","1a46d80","replays/C15/fixed/empty-union-described-as-parens.json","describe() printed never | never as \"()\" (not parseable)"),
+ ("fx-pick-keys-behind-alias","C01","71e5358","replays/C01/fixed/pick-keys-behind-alias.json","Pick<U, K> with the key union behind an alias (type K = \"a\" | \"c\"; also a single literal behind an alias) was refused with 'Pick should have string or string array as type argument', while Omit<U, K> and Pick<U, K1 | \"zz\"> compiled"),
 ]
 p='/verif/known_findings.json'
 doc=json.load(open(p))
